@@ -11,7 +11,9 @@
      D  what the text starts with: "none", "feff" (U+FEFF), "lat16le" / "lat16be" / "lat8" (latin-1 characters whose
         bytes are a UTF-16 / UTF-8 byte-order mark), "meta_X" / "xml_X" / "css_X" (a declaration naming charset X in
         {latin1, utf8, unk}), "late_css" (a CSS @charset rule that is not the very first thing: not a declaration)
-     S  repertoire of the rest: "ascii", "latin1", "cjk" (in gb2312), "gbk" (in gbk, not in gb2312), "astral", "surrogate"
+     S  repertoire of the rest: "ascii", "latin1", "cjk" (in gb2312), "gbk" (in gbk, not in gb2312),
+        "gbdiv" (U+2015, U+30FB: in gb2312 and in gb18030, but Python's two codecs map the same bytes to different characters),
+        "astral", "surrogate"
    Codecs: "latin1","ascii","utf8","utf16","utf32","utf16le","gb18030","unk","nontext", and on the read side also
    "utf8sig","utf16be","utf32le".                                                                           *)
 EXTENDS Mon_MsgText, TLC
